@@ -246,6 +246,9 @@ pub fn run(ctx: &Ctx) -> Report {
     report.absorb(r);
     report.assume("S-scan implements the token definitions of lexer.rs read as specification (cross-checked by `zyverif selftest`)");
     report.assume("an unterminated `/-` comments out the rest of the file (the repo's tooling lexer and its test say so)");
+    if ctx.tier == Tier::Thorough && std::env::var_os("VERIF_NO_FUZZ").is_none() {
+        crate::fuzzrun::campaign(ctx, "C11", 300_000, &mut report);
+    }
     report
 }
 
